@@ -39,6 +39,7 @@ def compile_job(a):
     work, name, src, scope, lang, seed, sy, uy = a
     r = compilelib.compile_source(work, name, src, scope, lang, db_namespace=("ns" + scope[0]) if lang == "arduino" else None,
                                   hashseed=seed, tz_version="c20", start_year=sy, until_year=uy)
+    r["hashseed"] = seed
     return name, r
 
 
@@ -89,7 +90,7 @@ def run(ctx):
     srcs.append(("seconds", "Zone\tAfrica/Monrovia\t-0:43:08\t-\tLMT\t1882\n\t\t\t-0:43:08\t-\tMMT\t1919\tMar\n"
                  "\t\t\t-0:44:30\t-\tMMT\t1972\tJan\t7\n\t\t\t0:00\t-\tGMT\n"
                  "Rule\tPX\t1960\tmax\t-\tApr\tSun>=1\t2:00:30\t1:00\tD\nRule\tPX\t1960\tmax\t-\tOct\tlastSun\t2:00\t0\tS\n"
-                 "Zone\tTest/Seconds\t5:17:20\t-\tLMT\t1950\n\t\t\t5:17:20\tPX\tT%sT\t1985\n\t\t\t5:00\tPX\tT%sT\n"
+                 "Zone\tTest/Seconds\t5:17:20\t-\tLMT\t1950\n\t\t\t5:17:20\tPX\tT%sT\t1985\tMar\t1\t2:00:30\n\t\t\t5:00\tPX\tT%sT\n"
                  "Rule\tPY\t1960\tmax\t-\tApr\tSun>=1\t2:00\t1:00\tD\nRule\tPY\t1960\tmax\t-\tOct\tlastSun\t2:00\t0\tS\n"
                  "Zone\tTest/Odd\t2:07:00\t-\tLMT\t1950\n\t\t\t2:07\tPY\tSAST\n"
                  "Link\tAfrica/Monrovia\tTest/Alias\n", 1965, 2000))
@@ -97,7 +98,9 @@ def run(ctx):
     for label, src, sy, uy in srcs:
         for scope in ("extended", "basic"):
             for lang in ("arduino", "python"):
-                for run_i, hs in enumerate((0, 1000 + ctx.seed)):
+                # the small source is also compiled under six more hash seeds (set / dict iteration orders inside the compiler)
+                seeds = (0, 1000 + ctx.seed) + ((1, 2, 3, 4, 5, 7) if label == "seconds" else ())
+                for run_i, hs in enumerate(seeds):
                     jobs.append((work, "%s_%s_%s_%d" % (label, scope, lang, run_i), src, scope, lang, hs, sy, uy))
     results = dict(vt.pmap(compile_job, jobs))
     for label, src, sy, uy in srcs:
@@ -105,16 +108,21 @@ def run(ctx):
         for scope in ("extended", "basic"):
             for lang in ("arduino", "python"):
                 a = results["%s_%s_%s_0" % (label, scope, lang)]
-                b = results["%s_%s_%s_1" % (label, scope, lang)]
                 tag = "%s/%s/%s" % (label, scope, lang)
-                if a["rc"] != 0 or b["rc"] != 0:
-                    ctx.violation("compiler-failed:" + tag, {"log": (a["log"] + b["log"])[-1500:]}, "tzcompiler failed for %s" % tag)
+                others = []
+                k_ = 1
+                while "%s_%s_%s_%d" % (label, scope, lang, k_) in results:
+                    others.append(results["%s_%s_%s_%d" % (label, scope, lang, k_)])
+                    k_ += 1
+                if a["rc"] != 0 or any(b["rc"] != 0 for b in others):
+                    ctx.violation("compiler-failed:" + tag, {"log": (a["log"] + others[0]["log"])[-1500:]}, "tzcompiler failed for %s" % tag)
                     continue
                 # R1 determinism
                 files = sorted(f for f in os.listdir(a["outdir"]))
-                if files != sorted(os.listdir(b["outdir"])):
-                    ctx.violation("R1-fileset:" + tag, {}, "%s: the two runs produced different sets of files" % tag)
-                for f in files:
+                for b in others:
+                    if files != sorted(os.listdir(b["outdir"])):
+                        ctx.violation("R1-fileset:" + tag, {}, "%s: the two runs produced different sets of files" % tag)
+                for f, b in [(f_, b_) for b_ in others for f_ in files if os.path.exists(os.path.join(b_["outdir"], f_))]:
                     ta, tb = open(os.path.join(a["outdir"], f)).read(), open(os.path.join(b["outdir"], f)).read()
                     ctx.evaluations += 1
                     nt.add((label, scope, lang, "R1", f))
@@ -131,8 +139,8 @@ def run(ctx):
                         first = next((("%r vs %r" % (x[:120], y[:120])) for x, y in zip(ca, cb) if x != y), "length differs") if not same else ""
                     if not same:
                         ctx.violation("R1:%s:%s:%s" % (scope, lang, f), {"artifact": tag, "file": f, "first_difference": first},
-                                      "%s: %s differs between two compilations of the same source (PYTHONHASHSEED 0 vs %d): %s" %
-                                      (tag, f, 1000 + ctx.seed, first))
+                                      "%s: %s differs between two compilations of the same source (PYTHONHASHSEED 0 vs %s): %s" %
+                                      (tag, f, b.get("hashseed"), first))
                 tz = compilelib.load_tzdb_json(a["outdir"])
                 emitted = sorted(tz["zones_map"])
                 if lang == "arduino":
